@@ -116,6 +116,9 @@ def handleTrDuration : List String → Option String
 
 /-- `unpack <hex bytes>`: reply `ok <sign> <signed mantissa> <exp>` (what the source hands to the final `float(...)`) -/
 def handleTrD128 : List String → Option String
+  | ["pack", s, c, e] => do
+    let s ← parseBool s; let c ← c.toNat?; let e ← e.toInt?
+    pure (showPyM showBytes (pack_decimal128 (if s then 1 else 0) (c : Int) e))
   | ["unpack", b] => do
     let b ← parseBytes b
     pure (showPyM (fun (r : Int × Int × Int) => s!"{r.1} {r.2.1} {r.2.2}") (unpack_decimal128 b))
